@@ -120,8 +120,23 @@ func regressLabs(plan Plan, tmp string) []shardResult {
 		return nil
 	}
 	files, _ := filepath.Glob(filepath.Join(root, "regress", plan.ID, "*.json"))
+	labUnits := map[string]bool{}
+	for _, u := range plan.Units {
+		if u.Lab != nil {
+			labUnits[u.Name] = true
+		}
+	}
 	var out []shardResult
 	for i, f := range files {
+		// only cases recorded by a lab unit are replayed in a lab
+		if b, err := os.ReadFile(f); err == nil {
+			var fl struct {
+				Unit string `json:"unit"`
+			}
+			if json.Unmarshal(b, &fl) != nil || !labUnits[fl.Unit] {
+				continue
+			}
+		}
 		sub := filepath.Join(tmp, fmt.Sprintf("regress-%d", i))
 		os.MkdirAll(sub, 0o755)
 		res := shardResult{unit: Unit{Name: "regress:" + filepath.Base(f)}}
